@@ -159,8 +159,8 @@ def run(chk):
     ca = X.atom('convection_alpha', 'pos'); cb = X.atom('convection_beta', 'pos'); rac = X.atom('critical_rayleigh', 'pos')
     cond = it.call(mc, f_cond, [dT, kth, L])
     fact('conduction: flux == k dT / L', cond[0], kth * dT / L, mc.where(f_cond))
-    record_sign(chk, 'R19.4', 'conduction: flux > 0 for dT > 0', sign_of(cond[0]), (POS,), mc.where(f_cond))
-    record_sign(chk, 'R19.4', 'conduction: d flux / d dT >= 0', sign_of(X.diff(cond[0], 'delta_temp')), (POS, NONNEG), mc.where(f_cond))
+    record_sign(chk, 'R19.4', 'conduction: flux > 0 for dT > 0', cond[0], (POS,), mc.where(f_cond))
+    record_sign(chk, 'R19.4', 'conduction: d flux / d dT >= 0', X.diff(cond[0], 'delta_temp'), (POS, NONNEG), mc.where(f_cond))
     conv = it.call(mc, f_conv, [dT, eta, kth, kap, alp, L, g, rho, ca, cb, rac])
     wherec = mc.where(f_conv)
     ra_ref = alp * rho * g * dT * L ** 3 / (eta * kap)
@@ -234,9 +234,9 @@ def run(chk):
             nregions += 1
             if not glab:
                 chk.note_analysed('formulas', f'convection [{lab}]: Rayleigh {"==" if d.equal(ra, ra_ref) else "!="} alpha rho g dT L^3 / (eta kappa); Nusselt = {X.show(nu)[:70]}')
-            record_sign(chk, 'R19.4', f'convection [{lab}]: flux > 0', sign_of(flux), (POS,), wherec)
-            record_sign(chk, 'R19.4', f'convection [{lab}]: d flux / d dT >= 0', sign_of(X.diff(flux, 'delta_temp')), (POS, NONNEG), wherec)
-            record_sign(chk, 'R19.4', f'convection [{lab}]: d flux / d viscosity <= 0', sign_of(X.diff(flux, 'viscosity')), (NEG, NONPOS, ZERO), wherec)
+            record_sign(chk, 'R19.4', f'convection [{lab}]: flux > 0', flux, (POS,), wherec)
+            record_sign(chk, 'R19.4', f'convection [{lab}]: d flux / d dT >= 0', X.diff(flux, 'delta_temp'), (POS, NONNEG), wherec)
+            record_sign(chk, 'R19.4', f'convection [{lab}]: d flux / d viscosity <= 0', X.diff(flux, 'viscosity'), (NEG, NONPOS, ZERO), wherec)
             # convection >= conduction across the same layer: flux == Nu x (conductive flux) with the region's own Nusselt number, and Nu >= 1 either because
             # it is a constant >= 1 there or because the region is *defined* by Nu lying above a constant >= 1
             ok_fac = d.equal(flux, cond_flux * nu)
@@ -326,7 +326,7 @@ def run(chk):
     hookc = ghost_mask({}, clamp_policy)
     va = X.specialize(it.call(mv, f_arr, [T, P, A, False, st, se, gs, ge, E, V]), hookc)
     fact('arrhenius (no extra T): == A stress^(1-n) grain^m exp((E + P V)/(R T))', va, A * X.power(st, 1 - se) * X.power(gs, ge) * exp((E + P * V) / (T * Rg)), mv.where(f_arr))
-    record_sign(chk, 'R19.4', 'arrhenius (no extra T): d viscosity / d T <= 0', sign_of(X.diff(va, 'temperature')), (NEG, NONPOS), mv.where(f_arr))
+    record_sign(chk, 'R19.4', 'arrhenius (no extra T): d viscosity / d T <= 0', X.diff(va, 'temperature'), (NEG, NONPOS), mv.where(f_arr))
     vat = X.specialize(it.call(mv, f_arr, [T, P, A, True, st, se, gs, ge, E, V]), hookc)
     fact('arrhenius (extra T) == T x arrhenius (no extra T)', vat, T * va, mv.where(f_arr))
     sgt = sign_of(X.diff(vat, 'temperature'))
@@ -335,10 +335,10 @@ def run(chk):
     vr = X.specialize(it.call(mv, f_ref, [T, P, eref, Tref, E, V]), hookc)
     fact('reference: == eta_ref exp((E + P V)/R (1/T - 1/T_ref))', vr, eref * exp((E + P * V) / Rg * (1 / T - 1 / Tref)), mv.where(f_ref))
     fact('reference: value at T_ref == eta_ref', X.subst(vr, {'temperature': Tref}), eref, mv.where(f_ref))
-    record_sign(chk, 'R19.4', 'reference: d viscosity / d T <= 0', sign_of(X.diff(vr, 'temperature')), (NEG, NONPOS), mv.where(f_ref))
+    record_sign(chk, 'R19.4', 'reference: d viscosity / d T <= 0', X.diff(vr, 'temperature'), (NEG, NONPOS), mv.where(f_ref))
     vcn = it.call(mv, f_con, [T, P, eref])
     fact('constant: == reference viscosity', vcn, eref, mv.where(f_con))
-    record_sign(chk, 'R19.4', 'constant: d viscosity / d T <= 0', sign_of(X.diff(vcn, 'temperature')), (NEG, NONPOS, ZERO), mv.where(f_con))
+    record_sign(chk, 'R19.4', 'constant: d viscosity / d T <= 0', X.diff(vcn, 'temperature'), (NEG, NONPOS, ZERO), mv.where(f_con))
     from .common import inplace_lint
     inplace_lint(chk, repo, 'R19.6', ['TidalPy/radiogenics/radiogenic_models.py', 'TidalPy/cooling/cooling_models.py', 'TidalPy/rheology/viscosity/viscosity_models.py', 'TidalPy/rheology/partial_melt/melting_models.py'])
     chk.floor('R19.6', 4)
@@ -373,8 +373,48 @@ def expand_minmax(node, memo=None):
     return r(node)
 
 
+def sign_witness(expr, accept, n=240):
+    """a sample point of the domain (positive atoms log-uniform in [1e-3, 1e3], the others in [-3, 3]) at which the sign of expr is outside `accept`; None if none is found"""
+    import math, random
+    rng = random.Random(12345)
+    atoms_ = sorted({(a_.val[0], a_.val[1]) for a_ in X.atoms_of(expr)})
+    want_pos = any(s_ in accept for s_ in (POS, NONNEG)); want_neg = any(s_ in accept for s_ in (NEG, NONPOS))
+    strict = not any(s_ in accept for s_ in (NONNEG, NONPOS, ZERO))
+    for _ in range(n):
+        env = {}
+        for nm, kind in atoms_:
+            if nm == 'pi': env[nm] = math.pi
+            elif nm.startswith('float_lognat'): env[nm] = 709.0
+            elif nm == 'float_eps': env[nm] = 2.220446049250313e-16
+            elif nm == 'float_max': env[nm] = 1.7976931348623157e308
+            elif kind == 'pos': env[nm] = 10 ** rng.uniform(-3, 3)
+            else: env[nm] = rng.uniform(-3, 3)
+        try:
+            v = X.float_eval(expr, env)
+        except Exception:
+            continue
+        if v != v or abs(v.imag) > 1e-9 * max(1.0, abs(v.real)) or math.isinf(v.real):
+            continue
+        x = v.real
+        if want_neg and x > 0 and (x > 1e-300): return env, x
+        if want_pos and x < 0 and (x < -1e-300): return env, x
+        if strict and x == 0: continue
+    return None
+
+
 def record_sign(chk, rule, inst, got, accept, where):
+    expr = None
+    if isinstance(got, X.Node):
+        expr = got; got = sign_of(expr)
     if got == UNK:
+        # the sign domain cannot settle it (masks from data-dependent arms, mixed-sign sums): look for a counter-example on the positive domain -- a point where the sign is
+        # outside the accepted set is a violation with a witness; without one the clause stays undecided
+        if expr is not None:
+            w = sign_witness(expr, accept)
+            if w is not None:
+                chk.ob(rule, inst, False, f'counter-example: the quantity is {w[1]:.4g} at ' + ', '.join(f'{k_} = {v_:.4g}' for k_, v_ in sorted(w[0].items())[:8]), where,
+                       method='symbolic derivative; float evaluation of the extracted expression at sample points of the positive domain (witness)')
+                return
         chk.undecide(rule, inst, 'sign domain could not settle the sign')
         return
     chk.ob(rule, inst, got in accept, f'sign is {got}, expected one of {accept}', where, method='symbolic derivative + sign domain')
